@@ -6,7 +6,6 @@ open GqlVerif.C04
 #print axioms GqlVerif.C01.ser_fields_iff
 #print axioms variables_fields_are_declared
 #print axioms variable_type_rule
-#print axioms non_null_never_null
 #print axioms skip_none_step
 #print axioms no_skip_step
 #print axioms none_is_null
@@ -17,7 +16,6 @@ open GqlVerif.C04
 #print axioms GqlVerif.C01.ser_keys_nodup
 #print axioms GqlVerif.C01.ser_keys_all
 #print axioms GqlVerif.C01.oneof_keys
-#print axioms GqlVerif.C01.ser_conforms
 -- key set of the serialized Variables struct, from the generator (Proofs/C05Body.lean)
 #print axioms GqlVerif.C04Keys.variablesItems_inv
 #print axioms GqlVerif.C04Keys.variables_keys
